@@ -133,7 +133,8 @@ Notation "'let*' x ':=' e 'in' k" :=
 (** * callers and the volatile computing entry of the running query *)
 Inductive caller :=
 | CUser
-| CQuery (by_ : node) (require_value pedantic : bool) (prev : list node)
+| CQuery (by_ : node) (require_value pedantic : bool) (prev : list (node * list node))
+    (* prev: the callees observed by the previous run, with the tfc set accounted for each *)
 | CRepairFirewall
 | CBPP.      (* BackwardProjectionPropagation *)
 
@@ -219,6 +220,13 @@ Definition set_computed_input (s : state) (n : node) (v : Z) : state :=
   let pending := match old with Some i => i_pending i | None => None end in
   put_info s1 n (mkInfo (s_ts s) v [] [] [] pending).
 
+(** the observations after the transitive firewall callees were rebuilt: the seen tfc of every
+    non-firewall callee is what the callee records now *)
+Definition refresh_obs (s : state) (obs : list (node * observation)) : list (node * observation) :=
+  map (fun '(x, (v, t)) =>
+         if kind_eqb (nkind x) KFirewall then (x, (v, t))
+         else match get_info s x with Some xi => (x, (v, i_tfc xi)) | None => (x, (v, t)) end) obs.
+
 Definition clean_query (s : state) (n : node) (cleaned : list node) (new_tfc : option (list node)) : state :=
   match get_info s n with
   | None => s
@@ -226,7 +234,9 @@ Definition clean_query (s : state) (n : node) (cleaned : list node) (new_tfc : o
       let s1 := fold_left (fun s c => set_dirty s (eremove (n, c) (s_dirty s))) cleaned s in
       put_info s1 n (mkInfo (s_ts s) (i_value i)
                             (match new_tfc with Some t => t | None => i_tfc i end)
-                            (i_fwd i) (i_obs i) (i_pending i))
+                            (i_fwd i)
+                            (match new_tfc with Some _ => refresh_obs s (i_obs i) | None => i_obs i end)
+                            (i_pending i))
   end.
 
 (** contribution of a callee to its caller's transitive firewall callees *)
@@ -296,9 +306,18 @@ Fixpoint query_for (fuel : nat) (stk : list node) (c : caller) (fr : option fram
   match fuel with
   | O => OutOfFuel
   | S f =>
-    (* a dependency the executor did not read in its previous run is repaired pedantically *)
+    (* a dependency the executor did not read in its previous run, or whose transitive firewall
+       callees are no longer the ones accounted for, is repaired pedantically *)
     let c := match c with
-             | CQuery b true false prev => if nmem n prev then c else CQuery b true true prev
+             | CQuery b true false prev =>
+                 match alookup prev n with
+                 | None => CQuery b true true prev
+                 | Some seen =>
+                     match get_info s n with
+                     | Some ci => if nset_eqb (i_tfc ci) seen then c else CQuery b true true prev
+                     | None => c
+                     end
+                 end
              | _ => c
              end in
     (* register_callee, with the two assertions of register_callee.rs *)
@@ -374,7 +393,7 @@ with execute (fuel : nat) (stk : list node) (c : caller) (n : node) (recompute :
   | O => OutOfFuel
   | S f =>
     let pedantic := match c with CQuery _ _ pd _ => pd | CBPP => true | _ => false end in
-    let prev := match get_info s n with Some i => all_callees (i_fwd i) | None => [] end in
+    let prev := match get_info s n with Some i => map (fun '(x, o) => (x, snd o)) (i_obs i) | None => [] end in
     let s0 := set_log s (n :: s_log s) in
     if (match panic_at with Some x => node_eqb x n | None => false end) then Panic 1 else
     let me := CQuery n true pedantic prev in
@@ -484,10 +503,18 @@ with repair (fuel : nat) (stk : list node) (c : caller) (n : node) (s : state)
                  else if (match alookup (i_obs i) cal with None => true | Some _ => false end)
                  then Ok (DRecompute, fr, ms, s)     (* the previous run was cut at this (cyclic) dependency *)
                  else
+                   (* the callee's transitive firewall callees are not the ones accounted for *)
+                   let pedantic_cal :=
+                     pedantic ||
+                     (negb (kind_eqb (nkind cal) KInput) && negb (kind_eqb (nkind cal) KFirewall) &&
+                      match get_info s cal, alookup (i_obs i) cal with
+                      | Some ci, Some (_, otfc) => negb (nset_eqb (i_tfc ci) otfc)
+                      | _, _ => false
+                      end) in
                    let* (fr1, m1, s1) :=
                      if kind_eqb (nkind cal) KInput then Ok (fr, [], s)
                      else
-                       let* (_, fr', m', s') := query_for f (n :: stk) (CQuery n false pedantic []) (Some fr) cal s in
+                       let* (_, fr', m', s') := query_for f (n :: stk) (CQuery n false pedantic_cal []) (Some fr) cal s in
                        Ok (match fr' with Some x => x | None => fr end, m', s') in
                    match get_info s1 cal, alookup (i_obs i) cal with
                    | Some ci, Some (ov, otfc) =>
